@@ -52,21 +52,55 @@ func ruleBatchExecChecksReplies(w *core.World, r *core.Report) {
 	ok := scan.Instr != nil
 	var pos token.Pos = f.Pos()
 	n := 0
-	for _, in := range core.Instrs(f) {
-		ret, isRet := in.(*ssa.Return)
-		if !isRet || !isSuccessReturn(in) || core.IsNilConst(ret.Results[0]) {
-			continue
-		}
+	collected := func(v ssa.Value) bool {
 		// the replies that were collected (an empty batch answers a fresh empty list)
-		if !core.DependsOn(ret.Results[0], func(x ssa.Value) bool {
+		return !core.IsNilConst(v) && core.DependsOn(v, func(x ssa.Value) bool {
 			c, ok := x.(*ssa.Call)
 			return ok && isBuiltin(c, "append")
-		}) {
+		})
+	}
+	for _, in := range core.Instrs(f) {
+		ret, isRet := in.(*ssa.Return)
+		if !isRet || len(ret.Results) != 2 {
 			continue
 		}
-		n++
-		if scan.Instr == nil || !core.Dominates(scan.Instr, in) {
-			ok, pos = false, ret.Pos()
+		if isSuccessReturn(in) {
+			if !collected(ret.Results[0]) {
+				continue
+			}
+			n++
+			if scan.Instr == nil || !core.Dominates(scan.Instr, in) {
+				ok, pos = false, ret.Pos()
+			}
+			continue
+		}
+		// results spilled to cells because the function defers something: the place where the collected replies
+		// are handed out is the store into the result cell; a store next to which a non-nil error is stored is not a
+		// success (judged by the error stored in the same block)
+		ld, isLd := ret.Results[0].(*ssa.UnOp)
+		if !isLd || ld.Op != token.MUL {
+			continue
+		}
+		for _, rf := range *ld.X.Referrers() {
+			st, isSt := rf.(*ssa.Store)
+			if !isSt || st.Addr != ld.X || !collected(st.Val) {
+				continue
+			}
+			failure := false
+			if eld, isE := ret.Results[1].(*ssa.UnOp); isE && eld.Op == token.MUL {
+				for _, in2 := range st.Block().Instrs {
+					if es, isES := in2.(*ssa.Store); isES && es.Addr == eld.X && !core.IsNilConst(es.Val) {
+						failure = true
+					}
+				}
+			}
+			if failure {
+				continue
+			}
+			n++
+			if scan.Instr == nil || !core.Dominates(scan.Instr, st) {
+				ok, pos = false, st.Pos()
+			}
 		}
 	}
 	r.Check(ok && n > 0, "Batch.Exec/error-replies-reported", pos, "the replies of a plain cluster batch are returned as a success without having been scanned for error replies (CheckRepliesError, its failure returned): a command the target refused counts as applied, and a snapshot entry replayed through native commands is recorded as complete although part of it is missing")
@@ -865,7 +899,17 @@ func ruleCommandNameLowercased(w *core.World, r *core.Report) {
 	var cmdVal ssa.Value
 	// (a return that hands on the results of a helper with one call site is that helper's returns)
 	for _, ret := range core.ReturnsX(f) {
-		if isSuccessReturn(ret) && len(ret.Results) == 3 {
+		if len(ret.Results) != 3 {
+			continue
+		}
+		// a return without error: the constant nil, also when the results are spilled because the function defers
+		success := isSuccessReturn(ret)
+		for _, ev := range core.RetVals(ret, 2) {
+			if core.IsNilConst(ev) {
+				success = true
+			}
+		}
+		if success {
 			cmdVal = core.RetVal(ret, 0)
 		}
 	}
